@@ -17,7 +17,6 @@ by an explicit EOF token (html5lib has no EOF token: its iterator just stops).
 """
 
 import argparse
-import itertools
 import multiprocessing
 import os
 import random
@@ -29,6 +28,7 @@ from html5lib._tokenizer import HTMLTokenizer          # noqa: E402
 from html5lib.constants import tokenTypes              # noqa: E402
 
 import r1_tokenizer as R1                              # noqa: E402
+import r10_charref as R10                              # noqa: E402
 
 SEED = 20201001
 
@@ -718,6 +718,29 @@ def main():
     print("hand-written: %d base cases, %d inputs incl. prefixes / NUL variants / cdata flag" % (nbase, len(hand)))
     sys.stdout.flush()
 
+    # r10_charref: trie walk == dict/set longest match, on every table key with
+    # various continuations, every key prefix, and random entity-ish strings
+    trie_bad = 0
+    n_trie = 0
+    rng = random.Random("trie/%d" % SEED)
+    for k in R10.NAMED:
+        for suf in ("", ";", "x", "=", "a;", "1", "\x00"):
+            for pre in ("", "z"):
+                t = pre + k + suf
+                n_trie += 1
+                if R10.longest_named_match(t, len(pre)) != R10.longest_named_match_dict(t, len(pre)):
+                    trie_bad += 1
+        for cut in range(len(k)):
+            n_trie += 1
+            if R10.longest_named_match(k[:cut], 0) != R10.longest_named_match_dict(k[:cut], 0):
+                trie_bad += 1
+    for _ in range(200000):
+        t = "".join(rng.choice("abcdefgnotilpmsuAMPGT12;= ") for _ in range(rng.randint(0, 8)))
+        n_trie += 1
+        if R10.longest_named_match(t, 0) != R10.longest_named_match_dict(t, 0):
+            trie_bad += 1
+    print("r10_charref trie vs dict longest match: %d strings, %d mismatches" % (n_trie, trie_bad))
+
     # IMPL2SPEC must cover exactly html5lib's *State methods
     impl_states = set(n for n in dir(HTMLTokenizer) if n.endswith("State"))
     map_ok = (impl_states == set(R1.IMPL2SPEC)
@@ -780,8 +803,8 @@ def main():
         print("\naccepted html5lib deviation %s: %d inputs; shortest:" % ("+".join(names), len(rs)))
         for r in rs[:3]:
             print("   %r %r\n      R1      : %r\n      html5lib: %r" % (r[1], r[2], r[3], r[4]))
-    if lock_problems or not map_ok:
-        print("\nFAILED: lock-step / IMPL2SPEC problems")
+    if lock_problems or not map_ok or trie_bad:
+        print("\nFAILED: lock-step / IMPL2SPEC / trie problems")
         return 1
     if unexplained:
         unexplained.sort(key=lambda r: (len(r[1]), r[1]))
